@@ -14,3 +14,9 @@ func verifC09FileGlobal() {
 	VerifC09Step(verifOpenFile(n), n, true)
 }
 func verifC09FileTwo() { n := 1 + verifChoose(3); VerifC09Two(verifOpenFile(n), n) }
+
+// the file disk and the memory disk run the same history side by side
+func verifC09FileHistory() {
+	n := 5 + 3*verifTier()
+	VerifC09History(verifOpenFile(n), NewMemDisk(uint64(n)), n, 2+verifTier())
+}
